@@ -192,6 +192,9 @@ pub struct Profile {
     pub combining: bool,
     /// half of the scalar values are strings (C40)
     pub stringy: bool,
+    /// text programs also overwrite single characters with put(text, i, "c") (conflicting values on
+    /// one text element) and embed objects (C24)
+    pub text_puts: bool,
 }
 
 impl Profile {
@@ -211,6 +214,7 @@ impl Profile {
             counter_heavy: false,
             combining: false,
             stringy: false,
+            text_puts: false,
         }
     }
     pub fn graph() -> Self {
@@ -393,6 +397,17 @@ pub fn gen(rng: &mut Rng, view: &J, prof: &Profile) -> J {
                 let c: Vec<usize> = starts.iter().cloned().filter(|x| *x >= lo).collect();
                 if c.is_empty() || rng.chance(1, 8) { lo + rng.below(len + 1 - lo.min(len)) } else { c[rng.below(c.len())] }
             };
+            if prof.text_puts && len > 0 && rng.chance(if prof.max_len <= 5 { 3 } else { 1 }, 5) {
+                let i = aligned(rng, 0).min(len - 1);
+                return match rng.below(6) {
+                    0 if !full => json!({"fn":"insert_object","obj":id,"idx":i,"ty":"map"}),
+                    1 => json!({"fn":"delete","obj":id,"idx":i}),
+                    _ => {
+                        let t = rand_toks(rng, prof, 1);
+                        json!({"fn":"put","obj":id,"idx":i,"val":enc::scalar(&ScalarValue::Str(enc::tokens_str(&t).into()))})
+                    }
+                };
+            }
             if prof.marks && len > 0 && c >= 7 {
                 let s = aligned(rng, 0).min(len - 1);
                 let e = aligned(rng, s + 1).max(s + 1).min(len);
